@@ -331,9 +331,10 @@ def rule_exit_scans(ctx):
     for ifs in cfront.body(fn).get('inner', []):
         if ifs.get('kind') != 'IfStmt':
             continue
-        cond = render(ifs['inner'][0]).strip('()')
-        if cond not in want:
+        mems = {'r.' + x['name'] for x in walk(ifs['inner'][0]) if x.get('kind') == 'MemberExpr' and x.get('name') in ('exit_max_distance', 'exit_min_distance')}
+        if len(mems) != 1:
             continue
+        cond = next(iter(mems))
         seen.add(cond)
         loops = extents.particle_loops(fn, ifs['inner'][1])
         anchor(loops, 'particle scan under %s in reb_run_heartbeat' % cond)
